@@ -97,11 +97,11 @@ def run(res):
 
 
 def model_part(res):
-    for cfg in (["Reorder_small.cfg"] if res.tier == "quick" else ["Reorder_small.cfg", "Reorder_big.cfg"]):
+    for cfg in (["Packetize_small.cfg", "Packetize_wrap.cfg", "Packetize_live.cfg"] if res.tier == "quick" else ["Packetize_small.cfg", "Packetize_wrap.cfg", "Packetize_live.cfg", "Packetize_big.cfg"]):
         if not os.path.exists(os.path.join(vlib.SPECS, cfg)):
             continue
-        r = vlib.tlc("Reorder", cfg, timeout=3000, heap="16g")
+        r = vlib.tlc("Packetize", cfg, timeout=3000, heap="16g")
         res.tlc_stats(r)
         res.case("tlc:" + cfg)
         if not r["ok"]:
-            res.violation("Reorder model (%s) violates %s" % (cfg, r["violated"]), r["out"][-6000:])
+            res.violation("Packetize model (%s) violates %s" % (cfg, r["violated"]), r["out"][-6000:])
